@@ -85,7 +85,7 @@ def ref_font_families(s):
 
 
 BOOL_LENIENT = [("false", False), ("False", False), ("true", True), ("True", True)]
-BOOL_JUNK = ["maybe", "", [], {"a": 1}]
+BOOL_JUNK = ["maybe", "", [], {"a": 1}, None]        # JSON null is not `true | false` either
 
 
 def _bool_key(default):
@@ -129,10 +129,10 @@ TABLE = {
   ("vtt_writer", "text_align"): _bool_key(False),
   ("vtt_writer", "cue_id"): _bool_key(True),
   ("scc_reader", "text_align"): {"type": "enum", "default": "auto", "valid": ["auto", "left", "center", "right"],
-                                 "invalid": [(v, "invalid-accepted:scc.text_align") for v in ("justify", "start", "", "middle", 5, ["left"])]},
+                                 "invalid": [(v, "invalid-accepted:scc.text_align") for v in ("justify", "start", "", "middle", 5, ["left"], None)]},
   ("lcd", "safe_area"): {"type": "int", "default": 10, "valid": [0, 30, 1, 29, 10, 5, 15, 20],
                          "invalid": [(v, "lcd-safe-area-range") for v in (-5, 31, 50, -1, 100)]
-                                    + [(v, "invalid-accepted:safe_area") for v in ("abc", [10], {"a": 1}, "")]},
+                                    + [(v, "invalid-accepted:safe_area") for v in ("abc", [10], {"a": 1}, "", None)]},
   ("lcd", "color"): {"type": "color", "default": None,
                      "valid": [None, "#FFFFFF", "white", "#FF0000", "transparent", "black", "#ff000080", "rgb(255,0,0)", "rgba(0,255,0,128)", "yellow", "#00ffff"],
                      "invalid": [(v, "invalid-accepted:color") for v in ("notacolor", "#FFF", "#GGGGGG", "", "rgb(1,2)", 5, ["white"], "#12345")]},
